@@ -593,6 +593,10 @@ func (r *runner) probeTx(m *Model) {
 			if c := m.committed[a]; c != nil && len(c.Stor) > 0 {
 				r.res.Probe("destructed-with-prior-storage")
 			}
+			if b, c := m.blockStart[a], m.committed[a]; b != nil && len(b.Stor) > 0 && c != nil && len(c.Stor) == 0 {
+				// storage on disk, all slots zeroed by an earlier tx of this block
+				r.res.Probe("destructed-after-storage-cleared-in-block")
+			}
 		case m.rules >= REIP158 && acc.empty():
 			r.res.Probe("empty-deleted-eip158")
 		case m.rules < REIP158 && acc.empty():
